@@ -3,6 +3,7 @@ package checks
 import (
 	"math"
 
+	"github.com/golang/geo/r3"
 	"github.com/golang/geo/s1"
 	"github.com/golang/geo/s2"
 
@@ -76,7 +77,7 @@ func runC02(c *core.Ctx) {
 					if ts != 0 {
 						triage++
 						if ts != det {
-							c.Violate("sign-stages", "wrong-answer", "triageSign returned a non-zero sign that is not the sign of the exact determinant", cas, detail())
+							c.Violate("sign-triples", "wrong-answer", "triageSign returned a non-zero sign that is not the sign of the exact determinant", cas, detail())
 						}
 					}
 					if a != b && b != cc && a != cc {
@@ -86,13 +87,13 @@ func runC02(c *core.Ctx) {
 								stable++
 							}
 							if ss != det {
-								c.Violate("sign-stages", "wrong-answer", "stableSign returned a non-zero sign that is not the sign of the exact determinant", cas, detail())
+								c.Violate("sign-triples", "wrong-answer", "stableSign returned a non-zero sign that is not the sign of the exact determinant", cas, detail())
 							}
 						} else if ts == 0 {
 							exactStage++
 						}
 						if es := int(s2.VerifExactSign(a, b, cc, true)); es != want {
-							c.Violate("sign-stages", "wrong-answer", "exactSign differs from the reference (exact determinant + symbolic perturbation)", cas, detail())
+							c.Violate("sign-triples", "wrong-answer", "exactSign differs from the reference (exact determinant + symbolic perturbation)", cas, detail())
 						}
 					}
 					if det == 0 && want != 0 {
@@ -142,7 +143,7 @@ func runC02(c *core.Ctx) {
 	for _, l := range coplanarByI {
 		base = append(base, l...)
 	}
-	maxBase := core.Pick(c, 1200, 6000)
+	maxBase := core.Pick(c, 6000, 40000)
 	if len(base) > maxBase {
 		// keep an evenly spread subset (deterministic)
 		step := float64(len(base)) / float64(maxBase)
@@ -177,11 +178,11 @@ func runC02(c *core.Ctx) {
 					c.Violate("sign-ulp", "wrong-answer", "RobustSign differs from the exact sign for a point within a few ulps of an exactly coplanar position", cas, detail())
 				}
 				if ts := int(s2.VerifTriageSign(a, b, p)); ts != 0 && ts != refmodel.ExactDetSign(a, b, p) {
-					c.Violate("sign-stages", "wrong-answer", "triageSign returned a non-zero sign that is not the sign of the exact determinant", cas, detail())
+					c.Violate("sign-ulp", "wrong-answer", "triageSign returned a non-zero sign that is not the sign of the exact determinant", cas, detail())
 				}
 				if a != b && a != p && b != p {
 					if ss := int(s2.VerifStableSign(a, b, p)); ss != 0 && ss != refmodel.ExactDetSign(a, b, p) {
-						c.Violate("sign-stages", "wrong-answer", "stableSign returned a non-zero sign that is not the sign of the exact determinant", cas, detail())
+						c.Violate("sign-ulp", "wrong-answer", "stableSign returned a non-zero sign that is not the sign of the exact determinant", cas, detail())
 					}
 				}
 				nontriv++
@@ -194,6 +195,45 @@ func runC02(c *core.Ctx) {
 	if c.Expired() {
 		c.CapHit("sign-ulp: wall budget reached")
 	}
+
+	// (b') denormal separations: a point with a zero coordinate and its copies in which that
+	// coordinate is one of the six smallest denormals, against every other alphabet point
+	var dn int64
+	for ai, a := range pts {
+		for coord := 0; coord < 3; coord++ {
+			v := [3]float64{a.X, a.Y, a.Z}
+			if v[coord] != 0 {
+				continue
+			}
+			for di, d := range []float64{5e-324, -5e-324, 1e-323, -1e-323, 1.5e-323, -1.5e-323} {
+				w := v
+				w[coord] = d
+				cc := s2.Point{Vector: r3.Vector{X: w[0], Y: w[1], Z: w[2]}}
+				for bi, b := range pts {
+					if c.Skip("sign-denormal", ai, coord, di, bi) {
+						continue
+					}
+					dn++
+					cas := []int{ai, coord, di, bi}
+					detail := func() any { return map[string]any{"a": ptStr(a), "b": ptStr(b), "c": ptStr(cc)} }
+					c.Guard("sign-denormal", cas, detail, func() {
+						want := refmodel.SoSSign(a, b, cc)
+						if got := int(s2.RobustSign(a, b, cc)); got != want {
+							c.Violate("sign-denormal", "wrong-answer", "RobustSign differs from the exact sign for two points separated by a denormal amount", cas, detail())
+						}
+						if a != b && b != cc {
+							if ss := int(s2.VerifStableSign(a, b, cc)); ss != 0 && ss != refmodel.ExactDetSign(a, b, cc) {
+								c.Violate("sign-denormal", "wrong-answer", "stableSign returned a non-zero sign that is not the sign of the exact determinant (denormal separation)", cas, detail())
+							}
+						}
+					})
+				}
+			}
+		}
+	}
+	c.Eval(int(dn))
+	c.Nontrivial(int(dn))
+	c.Count("sign/denormal_separation_triples", dn)
 
 	// (c) chirotope axiom on every 5-subset of the P-deg part (answers of the implementation)
 	deg := lattice.PDeg(!c.Quick())
@@ -329,7 +369,7 @@ func c02Distances(c *core.Ctx, pts []s2.Point) {
 						c.Violate("compare-distances", "wrong-answer", "CompareDistances is not antisymmetric", cas, detail())
 					}
 					if t := s2.VerifTriageCompareCosDistances(x, a, b); t != 0 && cc != 0 && t != want {
-						c.Violate("compare-distances-stages", "wrong-answer", "triageCompareCosDistances returned a wrong non-zero sign", cas, detail())
+						c.Violate("compare-distances", "wrong-answer", "triageCompareCosDistances returned a wrong non-zero sign", cas, detail())
 					}
 					if cax := a.Dot(x.Vector); cc != 0 && (cax > 1/math.Sqrt2 || cax < -1/math.Sqrt2) {
 						t := s2.VerifTriageCompareSin2Distances(x, a, b)
@@ -338,7 +378,7 @@ func c02Distances(c *core.Ctx, pts []s2.Point) {
 						}
 						// the sin² stage is only used by the library when the cos stage was inconclusive
 						if s2.VerifTriageCompareCosDistances(x, a, b) == 0 && t != 0 && t != want {
-							c.Violate("compare-distances-stages", "wrong-answer", "triageCompareSin2Distances returned a wrong non-zero sign where the library relies on it", cas, detail())
+							c.Violate("compare-distances", "wrong-answer", "triageCompareSin2Distances returned a wrong non-zero sign where the library relies on it", cas, detail())
 						}
 					}
 				})
@@ -418,7 +458,7 @@ func c02Distances(c *core.Ctx, pts []s2.Point) {
 						nontriv++
 					}
 					if t := s2.VerifTriageCompareCosDistance(x, y, r2); t != 0 && t != want {
-						c.Violate("compare-distance-stages", "wrong-answer", "triageCompareCosDistance returned a wrong non-zero sign", cas, detail())
+						c.Violate("compare-distance", "wrong-answer", "triageCompareCosDistance returned a wrong non-zero sign", cas, detail())
 					}
 				})
 			}
